@@ -44,6 +44,8 @@ type Unit struct {
 	Unsupported []string
 	nsym     int
 	Assumptions map[string]bool
+	quant    int // >0 while translating the body of a quantifier: no definitions or facts may be emitted
+	loadCache map[string]string
 }
 
 func newUnit(name string) *Unit {
@@ -77,6 +79,9 @@ func (u *Unit) define(hint, sort, term string) string {
 	if len(term) < 24 && !strings.Contains(term, " ") {
 		return term
 	}
+	if u.quant > 0 {
+		return term
+	}
 	u.nsym++
 	name := qsym(fmt.Sprintf("%s@%d", hint, u.nsym))
 	u.emit("(define-fun " + name + " () " + sort + " " + term + ")")
@@ -84,7 +89,7 @@ func (u *Unit) define(hint, sort, term string) string {
 }
 
 func (u *Unit) fact(pc, f string) {
-	if f == "true" {
+	if f == "true" || u.quant > 0 {
 		return
 	}
 	u.emit("(assert " + tImp(pc, f) + ")")
@@ -146,6 +151,7 @@ type FuncCtx struct {
 	freshRefs map[string]bool
 	guardMode bool
 	recSelf   string
+	entryLocksSymbolic bool
 }
 
 type State struct {
@@ -628,6 +634,11 @@ func (fc *FuncCtx) compTerm(st *State, key, sort string) string {
 	if t, ok := st.heap[key]; ok && !strings.HasPrefix(t, "?") {
 		return t
 	}
+	if strings.HasPrefix(key, "L!") && !fc.entryLocksSymbolic {
+		// no lock is held by this activation on entry (unless the contract requires held(...))
+		st.heap[key] = "((as const (Array Int Bool)) false)"
+		return st.heap[key]
+	}
 	name := qsym(fmt.Sprintf("H%d!%s", st.epoch, key))
 	fc.u.declare(name, "(declare-fun "+name+" () "+sort+")")
 	for _, h := range st.pendingHavoc {
@@ -796,9 +807,17 @@ func (fc *FuncCtx) loadPlace(st *State, p PlaceV) Value {
 		}
 		return fc.getPath(v, p.Root, p.Path)
 	case "obj", "elem", "cell":
-		if _, isArr := p.Typ.Underlying().(*types.Array); isArr {
-			// whole-array load: opaque value
-			return Scalar{fc.u.fresh("arrval", "Int"), "Int", p.Typ}
+		if _, isArr := p.Typ.Underlying().(*types.Array); isArr && p.Prefix == "A!" {
+			// whole-array load of an array object with modelled elements: an opaque value determined by the elements
+			at := p.Typ.Underlying().(*types.Array)
+			srt := fc.sortOf(at.Elem())
+			key := "E!" + typeKey(at.Elem())
+			full := arraySort([]string{"Int", fc.intSort()}, srt)
+			cur := fc.compTerm(st, key, full)
+			fn := qsym(fmt.Sprintf("arrpack!%d!%s", at.Len(), typeKey(at.Elem())))
+			fc.u.declare(fn, "(declare-fun "+fn+" ((Array "+fc.intSort()+" "+srt+")) Int)")
+			fc.u.Assumptions["an array value read as a whole is modelled as an uninterpreted function of its element row (equal rows give equal values; the converse is not used)"] = true
+			return Scalar{fc.u.define("arrval", "Int", "("+fn+" (select "+cur+" "+p.RefTerm+"))"), "Int", p.Typ}
 		}
 		return fc.loadAt(st, p.Prefix, p.Idx, p.IdxSorts, pathStr(p.Path), p.Typ)
 	case "global":
@@ -818,13 +837,13 @@ func (fc *FuncCtx) storePlace(st *State, p PlaceV, v Value) {
 		st.locals[p.Local] = fc.setPath(cur, p.Root, p.Path, v)
 		return
 	case "obj", "elem", "cell":
-		if _, isArr := p.Typ.Underlying().(*types.Array); isArr {
+		if _, isArr := p.Typ.Underlying().(*types.Array); isArr && p.Prefix == "A!" {
 			fc.unsupported("whole-array store")
 		}
 		fc.storeAt(st, p.Prefix, p.Idx, p.IdxSorts, pathStr(p.Path), p.Typ, v)
 		return
 	case "global":
-		if fc.eng.globalImmutable(p.Global) && fc.fn.Name() != "init" {
+		if fc.eng.globalImmutable(p.Global) && !fc.isPkgInit() {
 			fc.unsupported("store to global %s classified immutable", p.Global.Name())
 		}
 		fc.storeAt(st, "G!"+globalKey(p.Global), nil, nil, pathStr(p.Path), p.Typ, v)
@@ -846,7 +865,7 @@ func (fc *FuncCtx) loadGlobal(st *State, p PlaceV) Value {
 	g := p.Global
 	t := p.Typ
 	// error-typed immutable globals: distinct non-nil constants
-	if len(p.Path) == 0 && fc.eng.globalImmutable(g) {
+	if len(p.Path) == 0 && fc.eng.globalImmutable(g) && !fc.isPkgInit() {
 		if types.Identical(t, types.Universe.Lookup("error").Type()) {
 			key := globalKey(g)
 			id, ok := fc.errConsts[key]
@@ -977,3 +996,7 @@ type havocRec struct {
 }
 
 var _ = token.NoPos
+
+func (fc *FuncCtx) isPkgInit() bool {
+	return fc.fn != nil && fc.fn.Name() == "init" && fc.fn.Synthetic != ""
+}
